@@ -20,6 +20,7 @@ EXPLANATION = (
     " (R5, extended) the remove-empty filters decide emptiness on the internal (expanded) route where the class publishes one, and filter `_paths_internal` / `_walks_internal` with the same mask - in node-weighted mode a route through one node is not empty; (R7, extended) a class that forces allow_empty_paths itself (one layer per given weight) removes the unused layers in get_solution unless the caller asked for empty paths. "
     "NOT decided: that the solver returns a point satisfying the rows; simplicity of DAG paths and 'exactly k' follow from the rows."
     ' (R5, round 3) the remove-empty filters keep every route with at least one internal element (the smallest kept length is computed from the filter test; `> 1` is a violation).'
+    ' (R7, hunt 4) negative entries of a weight superset are rejected.'
 )
 DECIDED = ["path/walk-shape constraints present and complete", "synthetic endpoints never reach a public return value",
            "no graph is augmented twice", "node-mode results are condensed before they are published", "per-path lists stay in lock-step"]
